@@ -320,9 +320,13 @@ impl Cluster {
             }
             if let Some(rx) = c.member_rx.as_mut() {
                 while let Ok(Some(m)) = rx.try_next() {
-                    stamp += 1;
-                    c.c2s.push_back((stamp, format!("{}\n", m)));
-                    any = true;
+                    // the link is a byte stream that the receiver reads line by line: a message that contains a line break
+                    // arrives as several lines
+                    for piece in m.split('\n').filter(|p| !p.trim_matches('\r').is_empty()) {
+                        stamp += 1;
+                        c.c2s.push_back((stamp, format!("{}\n", piece)));
+                        any = true;
+                    }
                 }
             }
             if !c.server_busy {
